@@ -56,7 +56,8 @@ def safe_cmyk(
 def safe_rect_list(value: Any) -> Optional[Rect]:
     try:
         values = list(itertools.islice(value, 4))
-    except TypeError:
+    except (TypeError, KeyError):
+        # KeyError: a stream (iterating it looks up the key 0)
         return None
 
     if len(values) != 4:
